@@ -119,6 +119,39 @@ def gen_scenario(rng):
     return sc
 
 
+def gen_multiround(rng):
+    """every UTxO carries ADA and the same token(s) in amounts comparable to the request (about a third of the wallet):
+    the randomized strategy then runs one improvement round per asset over the same few candidates"""
+    n = rng.randint(3, 7)
+    pol = rng.choice(bgen.TOKEN_POLICIES).hex()
+    names = [x.hex() for x in rng.sample(list(bgen.TOKEN_NAMES), rng.choice([1, 1, 2]))]
+    utxos = []
+    for i in range(n):
+        u = {"id": f"u{i}", "txid": bgen.txid(rng), "ix": rng.choice([0, 1, 2]), "addr": "k0",
+             "coin": rng.choice([2_000_000, 3_000_000, 5_000_000, 12_000_000, 50_000_000])}
+        a = [[pol, nm, str(rng.randint(1, 12))] for nm in names if rng.random() < 0.8]
+        if a:
+            u["assets"] = a
+        utxos.append(u)
+    ids = [u["id"] for u in utxos]
+    sc = {"params": dict(rng.choice(bgen.PARAM_SETS[:2])), "utxos": utxos, "address_utxos": {"k0": ids}, "ops": [], "build": {}}
+    chain = rng.choice([["random"], ["random", "largest"], [["stream", [rng.choice([0, 0, 1, 2, rng.randrange(n)]) for _ in range(40)]]]])
+    sc["ops"].append({"op": "c09_selectors", "chain": chain})
+    if rng.random() < 0.5:
+        sc["ops"].append({"op": "add_input_address", "a": "k0"})
+    else:
+        for u in ids:
+            sc["ops"].append({"op": "potential", "u": u})
+    total = sum(u["coin"] for u in utxos)
+    held = bgen.wallet_assets(utxos)
+    o = {"op": "add_output", "addr": "k1", "coin": max(total // rng.choice([4, 5, 6, 8]), 1_500_000)}
+    if held:
+        o["assets"] = [[p, nme, str(max(q // rng.choice([3, 4, 5]), 1))] for (p, nme), q in held.items()]
+    sc["ops"].append(o)
+    sc["build"] = {"change": "k0", "merge_change": False, "pyseed": rng.randrange(2**32)}
+    return sc
+
+
 def route_sets(sc):
     umap = {u["id"]: u for u in sc["utxos"]}
     ref = lambda i: (umap[i]["txid"], int(umap[i]["ix"]))
@@ -243,13 +276,18 @@ def run(ctx):
     ctx.rule = ("wallets of 2..12 UTxOs over two addresses with overlapping explicit / potential / address / excluded "
                 "subsets, UTxOs listed twice, addresses registered twice, 9 selector chains (both strategies, injected "
                 "index streams, deliberately failing first / last strategies, empty chain), random seeds of the randomized "
-                "strategy; non-trivial = distinct scenario")
+                "strategy; every fourth scenario a multi-round wallet (each UTxO ADA + the same 1..2 tokens, request about a third, "
+                "small repeated indices); non-trivial = distinct scenario")
     ctx.assumptions = ["UTxO identity = (input reference, output) as Python compares UTxO objects; references are unique in a wallet"]
     for c in corpus():
         check_scenario(ctx, c)
     rng = ctx.rng
-    for _ in range(ctx.budget(400, 12000)):
-        check_scenario(ctx, gen_scenario(rng))
+    for i in range(ctx.budget(400, 12000)):
+        if i % 4 == 3:
+            ctx.count("family:multi-round")
+            check_scenario(ctx, gen_multiround(rng))
+        else:
+            check_scenario(ctx, gen_scenario(rng))
 
 
 def replay(ctx, data):
